@@ -33,11 +33,19 @@ pub struct GenGeom {
     /// it last), bit 1 = no-I/O-error bit cleared; the boot-sector status byte stays as configured
     #[serde(default)]
     pub fat1: u8,
+    /// non-zero: use exactly this FAT size in sectors (it must be able to hold clusters+2 entries) instead of the
+    /// size the fixed-point iteration arrives at, so that an exact cluster count can be hit
+    #[serde(default)]
+    pub fatsz: u32,
+    /// extended boot signature: 0 = 0x29 (volume id, label and type fields present); otherwise the byte itself
+    /// (0x28: only the volume id follows; any other value: none of the three fields)
+    #[serde(default)]
+    pub ext_sig: u8,
 }
 
 impl Default for GenGeom {
     fn default() -> Self {
-        GenGeom { rsvd: 1, mirror_off: None, root_cluster: 2, high_nibbles: false, fsinfo: 1, bkboot: 6, eoc: 7, media: 0xF8, pad_garbage: false, label: false, stray_active: 0, fat1: 0 }
+        GenGeom { rsvd: 1, mirror_off: None, root_cluster: 2, high_nibbles: false, fsinfo: 1, bkboot: 6, eoc: 7, media: 0xF8, pad_garbage: false, label: false, stray_active: 0, fat1: 0, fatsz: 0, ext_sig: 0 }
     }
 }
 
@@ -86,7 +94,20 @@ pub fn mkfs(p: &MkfsParams) -> Result<Store, String> {
     let rsvd = p.gg.rsvd as u64;
     let nfats = p.nfats as u64;
     let root_secs = if p.fat == 32 { 0 } else { (p.root_entries as u64 * 32 + bps - 1) / bps };
-    let (fatsz, clusters) = fat_size(p.fat, bps, spc, rsvd, nfats, root_secs, total).ok_or("volume too small")?;
+    let (fatsz, clusters) = if p.gg.fatsz != 0 {
+        let fatsz = p.gg.fatsz as u64;
+        let meta = rsvd + nfats * fatsz + root_secs;
+        if meta >= total {
+            return Err("volume too small for the given FAT size".into());
+        }
+        let clusters = (total - meta) / spc;
+        if (clusters + 2) * p.fat as u64 > fatsz * bps * 8 {
+            return Err("the given FAT size cannot hold the cluster count".into());
+        }
+        (fatsz, clusters)
+    } else {
+        fat_size(p.fat, bps, spc, rsvd, nfats, root_secs, total).ok_or("volume too small")?
+    };
     let width = if clusters < 4085 {
         12
     } else if clusters < 65525 {
@@ -142,7 +163,7 @@ pub fn mkfs(p: &MkfsParams) -> Result<Store, String> {
     };
     b[tail] = if width == 12 { 0 } else { 0x80 };
     b[tail + 1] = 0;
-    b[tail + 2] = 0x29;
+    b[tail + 2] = if p.gg.ext_sig == 0 { 0x29 } else { p.gg.ext_sig };
     put32(&mut b, tail + 3, 0xCAFE_F00D);
     b[tail + 7..tail + 18].copy_from_slice(if p.gg.label { b"GENLABEL   " } else { b"NO NAME    " });
     b[tail + 18..tail + 26].copy_from_slice(match width {
